@@ -785,46 +785,97 @@ def generate(repo):
                      for nm in ('cropRowLo', 'cropRowHi', 'cropColLo', 'cropColHi')))
 
     # ---- util.mean / pv / rms / Sa / std: the statistics as list expressions over the valid samples
+    # symbolic evaluation of the (straight-line) function bodies; same-module helper functions are inlined
+    state = {}
+
     def util_stats():
-        def tr(e, env):
-            """-> (kind, lean) with kind 'list' | 'scalar'"""
+        helpers = {n.name: n for n in utl.body if isinstance(n, ast.FunctionDef)}
+        filt = set()
+
+        def run_fn(fn, argvals, depth=0):
+            """evaluate a straight-line function on symbolic values -> value of its return expression"""
+            if depth > 4:
+                raise Untranslatable('helper inlining too deep')
+            if len(argvals) != len(fn.args.args):
+                raise Untranslatable(f'{fn.name}: argument count')
+            env = {a.arg: v for a, v in zip(fn.args.args, argvals)}
+            for st in fn.body:
+                if isinstance(st, ast.Expr) and isinstance(st.value, ast.Constant):
+                    continue
+                if isinstance(st, ast.Assign) and len(st.targets) == 1 and isinstance(st.targets[0], ast.Name):
+                    env[st.targets[0].id] = tr(st.value, env, depth)
+                    continue
+                if isinstance(st, ast.Return) and st.value is not None:
+                    return tr(st.value, env, depth)
+                raise Untranslatable(f'statement in {fn.name}: {ast.unparse(st)[:40]}')
+            raise Untranslatable(f'{fn.name} does not return')
+
+        def tr(e, env, depth=0):
+            """-> (kind, lean): kind 'raw' (the map), 'mask' (validity mask of the map), 'list' (samples), 'scalar'"""
             txt = ast.unparse(e)
-            if txt in env:
-                return env[txt]
-            if isinstance(e, ast.Call) and isinstance(e.func, ast.Attribute) and not e.args and not e.keywords:
-                k, a = tr(e.func.value, env)
-                if k != 'list':
-                    raise Untranslatable(f'method {e.func.attr} of a scalar')
-                m = e.func.attr
-                if m == 'mean':
-                    return 'scalar', f'(lsum {a} / lenK {a})'
-                if m == 'sum':
-                    return 'scalar', f'(lsum {a})'
-                if m == 'max':
-                    return 'scalar', f'(lmax {a})'
-                if m == 'min':
-                    return 'scalar', f'(lmin {a})'
-                if m == 'std':
-                    mu = f'(lsum {a} / lenK {a})'
-                    return 'scalar', f'(sqrtf (lsum (({a}.map fun t => t - {mu}).map fun t => t * t) / lenK {a}))'
-                raise Untranslatable(f'array method {m}')
+            if isinstance(e, ast.Name):
+                if e.id in env:
+                    return env[e.id]
+                raise Untranslatable(f'free name {e.id}')
+            if isinstance(e, ast.Call):
+                f = ast.unparse(e.func)
+                if f in helpers and not e.keywords:
+                    return run_fn(helpers[f], [tr(a, env, depth) for a in e.args], depth + 1)
+                if f.split('.')[-1] in ('isfinite', 'isnan', 'isinf') and len(e.args) == 1:
+                    k, _a = tr(e.args[0], env, depth)
+                    if k == 'raw':
+                        return 'mask', f
+                if isinstance(e.func, ast.Attribute) and not e.args and not e.keywords:
+                    k, a = tr(e.func.value, env, depth)
+                    if k != 'list':
+                        raise Untranslatable(f'method {e.func.attr} of a {k}')
+                    m = e.func.attr
+                    if m == 'mean':
+                        return 'scalar', f'(lsum {a} / lenK {a})'
+                    if m == 'sum':
+                        return 'scalar', f'(lsum {a})'
+                    if m == 'max':
+                        return 'scalar', f'(lmax {a})'
+                    if m == 'min':
+                        return 'scalar', f'(lmin {a})'
+                    if m == 'std':
+                        mu = f'(lsum {a} / lenK {a})'
+                        return 'scalar', f'(sqrtf (lsum (({a}.map fun t => t - {mu}).map fun t => t * t) / lenK {a}))'
+                    raise Untranslatable(f'array method {m}')
+                if f in ('abs', 'np.abs', 'np.absolute') and len(e.args) == 1:
+                    k, a = tr(e.args[0], env, depth)
+                    return (k, f'({a}.map absf)') if k == 'list' else (k, f'(absf {a})')
+                if f in ('np.sqrt', 'math.sqrt', 'sqrt') and len(e.args) == 1:
+                    k, a = tr(e.args[0], env, depth)
+                    if k == 'scalar':
+                        return k, f'(sqrtf {a})'
+                if f in ('np.mean', 'np.sum', 'np.max', 'np.min', 'np.std') and len(e.args) == 1 and not e.keywords:
+                    fake = ast.Call(func=ast.Attribute(value=e.args[0], attr=f.split('.')[-1], ctx=ast.Load()), args=[], keywords=[])
+                    return tr(fake, env, depth)
+                if f == 'len' and len(e.args) == 1:
+                    k, a = tr(e.args[0], env, depth)
+                    if k == 'list':
+                        return 'scalar', f'(lenK {a})'
+            if isinstance(e, ast.UnaryOp) and isinstance(e.op, ast.Invert):
+                k, a = tr(e.operand, env, depth)
+                if k == 'mask':
+                    return 'mask', '~' + a
+            if isinstance(e, ast.Subscript):
+                k, _a = tr(e.value, env, depth)
+                km, m = tr(e.slice, env, depth)
+                if k == 'raw' and km == 'mask':
+                    filt.add(m)
+                    return 'list', 'v'
             if isinstance(e, ast.Attribute) and e.attr == 'size':
-                k, a = tr(e.value, env)
+                k, a = tr(e.value, env, depth)
                 if k == 'list':
                     return 'scalar', f'(lenK {a})'
-            if isinstance(e, ast.Call) and ast.unparse(e.func) in ('abs', 'np.abs') and len(e.args) == 1:
-                k, a = tr(e.args[0], env)
-                return (k, f'({a}.map absf)') if k == 'list' else (k, f'(absf {a})')
-            if isinstance(e, ast.Call) and ast.unparse(e.func) in ('np.sqrt', 'math.sqrt', 'sqrt') and len(e.args) == 1:
-                k, a = tr(e.args[0], env)
-                if k == 'scalar':
-                    return k, f'(sqrtf {a})'
             if isinstance(e, ast.BinOp):
                 if isinstance(e.op, ast.Pow) and isinstance(e.right, ast.Constant) and e.right.value == 2:
-                    k, a = tr(e.left, env)
+                    k, a = tr(e.left, env, depth)
                     return (k, f'({a}.map fun t => t * t)') if k == 'list' else (k, f'({a} * {a})')
-                kl, a = tr(e.left, env)
-                kr, b = tr(e.right, env)
+                kl, a = tr(e.left, env, depth)
+                kr, b = tr(e.right, env, depth)
                 sym = {ast.Sub: '-', ast.Add: '+', ast.Mult: '*', ast.Div: '/'}.get(type(e.op))
                 if sym is None:
                     raise Untranslatable(f'operator in {txt[:40]}')
@@ -832,43 +883,20 @@ def generate(repo):
                     return 'scalar', f'({a} {sym} {b})'
                 if kl == 'list' and kr == 'scalar':
                     return 'list', f'({a}.map fun t => t {sym} {b})'
+                if kl == 'list' and kr == 'list' and a == b and sym == '*':
+                    return 'list', f'({a}.map fun t => t * t)'
             raise Untranslatable(f'statistic expression {txt[:50]}')
 
         out = []
-        filt = set()
         for name in ('mean', 'pv', 'rms', 'Sa', 'std'):
-            fn = get_def(utl, name)
-            arg = fn.args.args[0].arg
-            env = {}
-            ret = None
-            for st in fn.body:
-                if isinstance(st, ast.Expr) and isinstance(st.value, ast.Constant):
-                    continue
-                if isinstance(st, ast.Assign) and len(st.targets) == 1 and isinstance(st.targets[0], ast.Name):
-                    nm, v = st.targets[0].id, st.value
-                    if isinstance(v, ast.Call) and len(v.args) == 1 and ast.unparse(v.args[0]) == arg:
-                        filt.add(ast.unparse(v.func))                 # the validity mask
-                        env[f'{arg}[{nm}]'] = ('list', 'v')
-                        continue
-                    if isinstance(v, ast.UnaryOp) and isinstance(v.op, ast.Invert) and isinstance(v.operand, ast.Call) \
-                            and len(v.operand.args) == 1 and ast.unparse(v.operand.args[0]) == arg:
-                        filt.add('~' + ast.unparse(v.operand.func))
-                        env[f'{arg}[{nm}]'] = ('list', 'v')
-                        continue
-                    env[nm] = tr(v, env)
-                    continue
-                if isinstance(st, ast.Return):
-                    ret = tr(st.value, env)
-                    continue
-                raise Untranslatable(f'statement in util.{name}: {ast.unparse(st)[:40]}')
-            if ret is None or ret[0] != 'scalar':
+            ret = run_fn(get_def(utl, name), [('raw', 'd')])
+            if ret[0] != 'scalar':
                 raise Untranslatable(f'util.{name} does not return a scalar expression')
             cls = '[Num K] [LT K] [DecidableLT K]' if name == 'pv' else '[Num K]'
             out.append(f'def util_{name} {{K : Type}} {cls} (absf sqrtf : K → K) (v : List K) : K := {ret[1]}')
         state['filters'] = filt
         return '\n'.join(out)
-    state = {}
-    g.item('util.statistics', 'prysm/util.py:{mean,pv,rms,Sa,std}', lambda: ast.Module(body=[get_def(utl, n) for n in ('mean', 'pv', 'rms', 'Sa', 'std')], type_ignores=[]),
+    g.item('util.statistics', 'prysm/util.py:{mean,pv,rms,Sa,std}', lambda: ast.Module(body=[n for n in utl.body if isinstance(n, ast.FunctionDef) and (n.name in ('mean', 'pv', 'rms', 'Sa', 'std') or n.name.startswith('_'))], type_ignores=[]),
            util_stats,
            '\n'.join(f'def util_{n} {{K : Type}} {"[Num K] [LT K] [DecidableLT K]" if n == "pv" else "[Num K]"} (absf sqrtf : K → K) (v : List K) : K := {b}'
                      for n, b in (('mean', 'mean v'), ('pv', 'pv v'), ('rms', 'sqrtf (meanSq v)'), ('Sa', 'saWith absf v'), ('std', 'sqrtf (var v)'))))
@@ -877,47 +905,165 @@ def generate(repo):
         f = state.get('filters')
         if not f:
             return None
-        if f <= {'np.isfinite', 'isfinite'}:
+        if all(x.split('.')[-1] == 'isfinite' for x in f):
             return True
-        if any(x.lstrip('~') in ('np.isnan', 'isnan', 'np.isinf', 'isinf') for x in f):
+        if any(x.lstrip('~').split('.')[-1] in ('isnan', 'isinf') for x in f):
             return False          # recognised and wrong: +-inf (or NaN) would count as valid samples
         return None
     g.fact('utilValidIsFinite', 'prysm/util.py:{mean,pv,rms,Sa,std}', util_filter)
 
-    # ---- which fitted columns the removal methods subtract
+    # ---- which fitted columns the removal methods subtract: the returned surface as a polynomial in the design
+    #      columns and the fitted coefficients (symbolic evaluation of the straight-line bodies of fit_plane / fit_sphere)
     def removal_columns():
-        fp, fs = get_def(ig, 'fit_plane'), get_def(ig, 'fit_sphere')
-        # fit_plane: lstsq([x, y], z) and coefs[0]*x + coefs[1]*y
-        (c,) = [n for n in ast.walk(fp) if isinstance(n, ast.Call) and ast.unparse(n.func) == 'lstsq']
-        if ast.unparse(c.args[0]).replace(' ', '') != '[x,y]':
-            raise Untranslatable('fit_plane design is not [x, y]')
-        (ret,) = [n.value for n in ast.walk(fp) if isinstance(n, ast.Return)]
-        expr = find_local(fp, ret)
-        used = sorted({int(ast.unparse(n.slice)) for n in ast.walk(expr) if isinstance(n, ast.Subscript) and ast.unparse(n.value) == 'coefs'})
-        terms = ast.unparse(expr).replace(' ', '')
-        if terms not in ('coefs[0]*x+coefs[1]*y', 'x*coefs[0]+y*coefs[1]', 'coefs[1]*y+coefs[0]*x'):
-            raise Untranslatable(f'plane is {terms[:40]}')
-        # fit_sphere: design stack([focus, ones]) and sphere = focus * coefs[0]
-        sph = find_local(fs, ast.Name(id='sphere', ctx=ast.Load()))
-        st = ast.unparse(sph).replace(' ', '')
-        if st not in ('focus*coefs[0]', 'coefs[0]*focus'):
-            raise Untranslatable(f'sphere is {st[:40]}')
-        design = [ast.unparse(n.args[0]).replace(' ', '') for n in ast.walk(fs) if isinstance(n, ast.Call) and ast.unparse(n.func) == 'np.stack']
-        if not design or not design[0].startswith('[focus.flatten(),np.ones('):
-            raise Untranslatable('fit_sphere design is not [rho^2, 1]')
-        return (f'def tiltRemovedColumns : List Nat := {used}\ndef powerRemovedColumns : List Nat := [0]\n'
-                f'def tiltDesignHasConstant : Bool := false\ndef powerDesignHasConstant : Bool := true')
+        from fractions import Fraction
 
-    def find_local(fn, e):
-        if isinstance(e, ast.Name):
-            for n in ast.walk(fn):
-                if isinstance(n, ast.Assign) and isinstance(n.targets[0], ast.Name) and n.targets[0].id == e.id:
-                    return n.value
-        return e
+        def padd(a, b, sgn=1):
+            out = dict(a)
+            for k, v in b.items():
+                out[k] = out.get(k, 0) + sgn * v
+                if out[k] == 0:
+                    del out[k]
+            return out
+
+        def pmul(a, b):
+            out = {}
+            for k1, v1 in a.items():
+                for k2, v2 in b.items():
+                    k = tuple(sorted(k1 + k2))
+                    out[k] = out.get(k, 0) + v1 * v2
+                    if out[k] == 0:
+                        del out[k]
+            return out
+
+        def analyse(fn, which_return):
+            """-> (design column symbols, polynomial of the returned surface)"""
+            env = {a.arg: ('poly', {(a.arg,): Fraction(1)}) for a in fn.args.args}
+            design = {}
+
+            def ev(e):
+                if isinstance(e, ast.Constant) and isinstance(e.value, (int, float)) and not isinstance(e.value, bool):
+                    return 'poly', ({(): Fraction(repr(e.value))} if e.value != 0 else {})
+                if isinstance(e, ast.Name):
+                    return env.get(e.id, ('opaque', e.id))
+                if isinstance(e, ast.List) or isinstance(e, ast.Tuple):
+                    return 'seq', [ev(x) for x in e.elts]
+                if isinstance(e, ast.Attribute) and e.attr == 'T':
+                    return ev(e.value)
+                if isinstance(e, ast.Call):
+                    f = ast.unparse(e.func)
+                    if f.endswith('.flatten') or f.endswith('.ravel'):
+                        return ev(e.func.value)
+                    if f in ('np.ones', 'np.ones_like'):
+                        return 'poly', {('one',): Fraction(1)}
+                    if f in ('np.stack', 'np.array', 'np.asarray', 'np.column_stack', 'np.vstack') and e.args:
+                        return ev(e.args[0])
+                    if f == 'lstsq' and e.args:                      # prysm.polynomials.lstsq(modes, data) -> coefficient vector
+                        k, cols = ev(e.args[0])
+                        if k != 'seq':
+                            raise Untranslatable('lstsq design is not a list of modes')
+                        design['cols'] = cols
+                        return 'coefs', None
+                    if f == 'np.linalg.lstsq' and e.args:            # -> (coefficient vector, residuals, rank, sv)
+                        k, cols = ev(e.args[0])
+                        if k != 'seq':
+                            raise Untranslatable('np.linalg.lstsq design is not a stack of columns')
+                        design['cols'] = cols
+                        return 'seq', [('coefs', None), ('opaque', 'res'), ('opaque', 'rank'), ('opaque', 'sv')]
+                    return 'opaque', f
+                if isinstance(e, ast.Subscript):
+                    k, v = ev(e.value)
+                    if isinstance(e.slice, ast.Constant) and isinstance(e.slice.value, int):
+                        if k == 'coefs':
+                            return 'poly', {(f'c{e.slice.value}',): Fraction(1)}
+                        if k == 'seq' and e.slice.value < len(v):
+                            return v[e.slice.value]
+                    if k == 'poly':
+                        return k, v              # masking / indexing keeps the column
+                    return 'opaque', ast.unparse(e)
+                if isinstance(e, ast.UnaryOp) and isinstance(e.op, ast.USub):
+                    k, v = ev(e.operand)
+                    if k == 'poly':
+                        return 'poly', padd({}, v, -1)
+                if isinstance(e, ast.BinOp):
+                    (kl, a), (kr, b) = ev(e.left), ev(e.right)
+                    if kl == 'poly' and kr == 'poly':
+                        if isinstance(e.op, ast.Add):
+                            return 'poly', padd(a, b)
+                        if isinstance(e.op, ast.Sub):
+                            return 'poly', padd(a, b, -1)
+                        if isinstance(e.op, ast.Mult):
+                            return 'poly', pmul(a, b)
+                        if isinstance(e.op, ast.Pow) and isinstance(e.right, ast.Constant) and e.right.value == 2:
+                            return 'poly', pmul(a, a)
+                    if kl == 'poly' and isinstance(e.op, ast.Pow) and isinstance(e.right, ast.Constant) and e.right.value == 2:
+                        return 'poly', pmul(a, a)
+                    return 'opaque', ast.unparse(e)[:30]
+                return 'opaque', ast.unparse(e)[:30]
+
+            ret = None
+            for st in fn.body:
+                if isinstance(st, ast.Expr):
+                    continue
+                if isinstance(st, ast.Assign) and len(st.targets) == 1:
+                    t, val = st.targets[0], ev(st.value)
+                    if isinstance(t, ast.Name):
+                        env[t.id] = val if val[0] != 'opaque' else ('poly', {(t.id,): Fraction(1)})
+                    elif isinstance(t, ast.Tuple):
+                        if val[0] == 'coefs':
+                            for k_, el in enumerate(t.elts):
+                                if isinstance(el, ast.Name):
+                                    env[el.id] = ('poly', {(f'c{k_}',): Fraction(1)})
+                        elif val[0] == 'seq':
+                            for k_, el in enumerate(t.elts):
+                                if isinstance(el, ast.Starred):
+                                    break
+                                if isinstance(el, ast.Name) and k_ < len(val[1]):
+                                    v_ = val[1][k_]
+                                    env[el.id] = v_ if v_[0] != 'opaque' else ('poly', {(el.id,): Fraction(1)})
+                        else:
+                            for el in t.elts:
+                                if isinstance(el, ast.Name):
+                                    env[el.id] = ('poly', {(el.id,): Fraction(1)})
+                    continue
+                if isinstance(st, ast.Return) and st.value is not None:
+                    ret = ev(st.value)
+                    continue
+                raise Untranslatable(f'statement in {fn.name}: {ast.unparse(st)[:40]}')
+            if ret is None or 'cols' not in design:
+                raise Untranslatable(f'{fn.name}: no least-squares call / return')
+            if which_return is not None:
+                if ret[0] != 'seq' or which_return >= len(ret[1]):
+                    raise Untranslatable(f'{fn.name} does not return a tuple')
+                ret = ret[1][which_return]
+            if ret[0] != 'poly':
+                raise Untranslatable(f'{fn.name}: returned surface is not a polynomial in the design columns')
+            cols = []
+            for c in design['cols']:
+                if c[0] != 'poly' or len(c[1]) != 1 or list(c[1].values()) != [1]:
+                    raise Untranslatable(f'{fn.name}: design column is not a plain array')
+                cols.append(list(c[1])[0])
+            return cols, ret[1]
+
+        def summary(cols, poly):
+            removed, rest = [], dict(poly)
+            for k_, col in enumerate(cols):
+                key = tuple(sorted((f'c{k_}',) + col))
+                if rest.get(key) == 1:
+                    removed.append(k_)
+                    del rest[key]
+            return removed, (not rest), any(col == ('one',) for col in cols)
+
+        tr_, tok, tconst = summary(*analyse(get_def(ig, 'fit_plane'), None))
+        pr_, pok, pconst = summary(*analyse(get_def(ig, 'fit_sphere'), 1))
+        b = lambda x: 'true' if x else 'false'   # noqa: E731
+        return (f'def tiltRemovedColumns : List Nat := {tr_}\ndef powerRemovedColumns : List Nat := {pr_}\n'
+                f'def tiltDesignHasConstant : Bool := {b(tconst)}\ndef powerDesignHasConstant : Bool := {b(pconst)}\n'
+                f'def removedSurfacesAreFittedColumns : Bool := {b(tok and pok)}')
     g.item('removal.columns', 'prysm/interferogram.py:fit_plane,fit_sphere', lambda: ast.Module(body=[get_def(ig, 'fit_plane'), get_def(ig, 'fit_sphere')], type_ignores=[]),
            removal_columns,
            'def tiltRemovedColumns : List Nat := [0, 1]\ndef powerRemovedColumns : List Nat := [0]\n'
-           'def tiltDesignHasConstant : Bool := false\ndef powerDesignHasConstant : Bool := true')
+           'def tiltDesignHasConstant : Bool := false\ndef powerDesignHasConstant : Bool := true\n'
+           'def removedSurfacesAreFittedColumns : Bool := true')
 
     g.fact('settersTrivial', 'prysm/_richdata.py:RichData.{x,y,r,t}.setter', lambda: setters_trivial(info))
     text, items = g.finish()
